@@ -127,14 +127,26 @@ def size_rules(R, prefix):
                     for lp in [x for x in ast.walk(fn_) if isinstance(x, ast.For)]:
                         cur = {}
                         for st_ in lp.body:
-                            if isinstance(st_, ast.Assign) and len(st_.targets) == 1 and isinstance(st_.targets[0], ast.Attribute) and st_.targets[0].attr == 'name' \
-                                    and ast.unparse(st_.targets[0].value).startswith('self.'):
-                                cur[ast.unparse(st_.targets[0].value)] = ast.unparse(st_.value)
+                            for a_ in ([st_] if isinstance(st_, ast.Assign) else []) + [x_ for x_ in ast.walk(st_) if isinstance(x_, ast.Assign) and x_ is not st_]:
+                                for tg_ in a_.targets:
+                                    if isinstance(tg_, ast.Attribute) and tg_.attr == 'name' and ast.unparse(tg_.value).startswith('self.'):
+                                        cur[ast.unparse(tg_.value)] = ast.unparse(a_.value)
                             for c_ in ast.walk(st_):
                                 if isinstance(c_, ast.Call) and callee_attr(c_) == meth and ast.unparse(c_.func.value).startswith('self.'):
                                     out[ast.unparse(c_.func.value)] = cur.get(ast.unparse(c_.func.value))
                     return out
                 na_, nb_ = naming(fl.node, 'encoded_length'), naming(fe.node, 'encode_into')
+                # ... and the sub-fields of one entry (key / value of a map) get names of their own: what one caches under its name
+                # (markers[f'{name}##encoded_length']) must not be overwritten by the other before it is read back
+                for (pass_, nm_, q_) in (('encoded_length', na_, ql), ('encode_into', nb_, qe)):
+                    subs_ = [k_ for k_ in sorted(nm_) if nm_[k_] is not None]
+                    for i_ in range(len(subs_)):
+                        for j_ in range(i_ + 1, len(subs_)):
+                            if nm_[subs_[i_]] == nm_[subs_[j_]]:
+                                R.fail(prefix + '.SIZ.1b', f'{TM}.{cls} :: {subs_[i_]} and {subs_[j_]} are named apart', q_, 'def ' + pass_,
+                                       f'{cls}.{pass_}: {subs_[i_]} and {subs_[j_]} are both named `{nm_[subs_[i_]]}` for the same entry: both cache the width / length '
+                                       'they measured under that name, the second overwrites the first, and the first is then written with the other\'s size '
+                                       '(e.g. {1: 300} - a one-octet key written with the two-octet width of the value)', (fl if pass_ == 'encoded_length' else fe).loc())
                 for sub_ in sorted(set(na_) | set(nb_)):
                     inst2 = f'{TM}.{cls} :: {sub_} is named per element before it is measured and before it is written'
                     if na_.get(sub_) is not None and na_.get(sub_) == nb_.get(sub_):
@@ -310,6 +322,27 @@ def run(R):
     # ------------------------------------------------------------------ SIZ.1
     size_rules(R, 'C08')
     stale_rule(R, 'C08')
+    # ------------------------------------------------------------------ ORD.1 the measuring pass comes before the writing pass
+    R.ob('C08.ORD.1', 'TlvModel.encode: no field is written before the measuring pass has run over these markers (encoded_length fills the per-field '
+                      'entries - widths, inner lengths - that encode_into reads back), unless the markers say it already has')
+    ex = ctx(R, TM + '.TlvModel.encode')
+    writes_ = [n for (n, c) in calls_in_ctx(ex, attr='encode_into')]
+    measures_ = [n for (n, c) in calls_in_ctx(ex, attr='encoded_length') if ast.unparse(c.func.value) == 'self']
+    done_edges = set()
+    for t in ex.cfg.nodes:
+        if t.kind == 'test' and '##encoded_length' in ast.unparse(t.ast):
+            e_ = t.ast
+            if isinstance(e_, ast.Compare) and len(e_.ops) == 1 and isinstance(e_.ops[0], (ast.In, ast.NotIn)):
+                done_edges.add((t.id, isinstance(e_.ops[0], ast.In)))
+    inst = TM + '.TlvModel.encode :: encoded_length(markers) before the first encode_into'
+    if not writes_:
+        raise AnalysisError('TlvModel.encode: no encode_into call found')
+    if any(w.id in ex.cfg.reachable(removed_nodes={n.id for n in measures_}, removed_edges=done_edges) for w in writes_):
+        R.fail('C08.ORD.1', inst, ex.qual, writes_[0].ast, 'a field can be written although encoded_length(markers) has not been run over these markers (and they do not '
+               'carry the total that says it has): encode_into then reads back entries the measuring pass never made - encoding into a caller-supplied buffer '
+               'of the announced size fails (KeyError) or writes with stale widths', site(ex, writes_[0].ast))
+    else:
+        R.ok('C08.ORD.1', inst, site(ex, writes_[0].ast))
     # ------------------------------------------------------------------ LOP.1
     R.ob('C08.LOP.1', 'encoded_length, encode and parse walk the same _encoded_fields list in order; the metaclass collects fields in class-body order')
     for meth in ('encoded_length', 'encode', '__eq__'):
